@@ -77,7 +77,7 @@ def run_c05(rep, tier, seed):
     for kind in KINDS:
         st, sc = kind in ("SMG", "SCRG"), kind == "SCRG"
         G = {n: Group(rep, f"C05/bounded/{kind}/{n}") for n in
-             ("automorphisms", "renamed-copy", "some-parities-unspecified-on-one-side", "overlapping-identifier-sets", "caller-labels", "unrelated-pairs", "without-stereo-flags")}
+             ("automorphisms", "renamed-copy", "some-parities-unspecified-on-one-side", "one-descriptor-missing-on-one-side", "overlapping-identifier-sets", "caller-labels", "unrelated-pairs", "without-stereo-flags")}
         items = corpus(kind, seed)
         for name, ref in items:
             if len(ref.atoms) > 8:
@@ -106,6 +106,16 @@ def run_c05(rep, tier, seed):
                 for x, y in ((ref, re_), (re_, ref)):
                     ok, why = c05_case(x, y, None, st, sc)
                     G["some-parities-unspecified-on-one-side"].case(ok, f"{name}: {why} {x.describe()} vs {y.describe()}", c05_body(x, y, None, st, sc))
+            if st and (ref.atom_stereo or ref.bond_stereo):
+                # the renamed copy with ONE descriptor removed: same connectivity, different descriptor sets, both argument orders
+                rm = rb.copy()
+                if rm.atom_stereo and (not rm.bond_stereo or rng.random() < 0.5):
+                    del rm.atom_stereo[rng.choice(list(rm.atom_stereo))]
+                else:
+                    del rm.bond_stereo[rng.choice(list(rm.bond_stereo))]
+                for x, y in ((ref, rm), (rm, ref)):
+                    ok, why = c05_case(x, y, None, st, sc)
+                    G["one-descriptor-missing-on-one-side"].case(ok, f"{name}: {why} {x.describe()} vs {y.describe()}", c05_body(x, y, None, st, sc))
             # the two identifier sets overlap but are shifted (u of g1 is also an atom of g2)
             atoms = list(ref.atoms)
             sh = dict(zip(atoms, atoms[1:] + atoms[:1]))
